@@ -33,9 +33,16 @@ def variants(rng, pr):
     return cor, drop, sorted(zpos)
 
 
-def close(a, b_, tol):
+def close(a, b_, tol, floor=0.0):
     a, b_ = np.asarray(a, dtype=float), np.asarray(b_, dtype=float)
-    return bool(np.all(np.abs(a - b_) <= tol * np.maximum(1.0, np.abs(a))))
+    return bool(np.all(np.abs(a - b_) <= tol * np.maximum(1.0, np.abs(a)) + floor))
+
+
+def coord_scale(pr, Z):
+    """largest coordinate magnitude among the sources that take part in the fit"""
+    zs = set(Z)
+    vals = [abs(v) for key in ('xy', 'uv') for k, p in enumerate(pr[key]) if k not in zs for v in p]
+    return max(vals) if vals else 1.0
 
 
 def fit_level(ck, lf):
@@ -80,8 +87,10 @@ def fit_level(ck, lf):
             if c0 != 0:
                 continue
             ok = close(e0, e1, 1e-9) and close(e0, e2, 1e-9)
+            # statistics of a (nearly) exact fit are rounding noise of size ~ cond * eps * |coordinates|: absolute floor
+            floor = 2.0 ** -36 * coord_scale(pr, Z)
             for kstat in ('rmse', 'mae'):
-                ok = ok and close(f0[kstat], f1[kstat], 1e-9) and close(f0[kstat], f2[kstat], 1e-9)
+                ok = ok and close(f0[kstat], f1[kstat], 1e-9, floor) and close(f0[kstat], f2[kstat], 1e-9, floor)
             if iterative:
                 m0, m1 = np.asarray(f0['fitmask']), np.asarray(f1['fitmask'])
                 ok = ok and not m1[Z].any() and not m0[Z].any() and np.array_equal(m0, m1)
@@ -131,11 +140,12 @@ def fit_level(ck, lf):
                     continue
                 f0 = outs['orig'][2]
                 okc = True
+                floorc = 2.0 ** -36 * coord_scale(pr, Z)
                 keepidx = [k for k in range(pr['n']) if k not in Z]
                 for name in ('moderate', 'corrupt', 'drop'):
                     fk = outs[name][2]
                     okc = okc and close(outs['orig'][1], outs[name][1], 1e-9) and f0['eff_nclip'] == fk['eff_nclip']
-                    okc = okc and close(f0['rmse'], fk['rmse'], 1e-9) and close(f0['mae'], fk['mae'], 1e-9)
+                    okc = okc and close(f0['rmse'], fk['rmse'], 1e-9, floorc) and close(f0['mae'], fk['mae'], 1e-9, floorc)
                     mk = np.asarray(fk['fitmask'])
                     if name == 'drop':
                         okc = okc and np.array_equal(np.asarray(f0['fitmask'])[keepidx], mk)
@@ -382,7 +392,9 @@ def run(ck):
                'align_wcs(expand_refcat=True); the second image\'s fit is compared in Coq with the exact weighted fit of its '
                'true pairs (rows appended from the first image carry that image\'s weights). Non-trivial: fit returned and at least one zero-weight source / any '
                'alignment case; distinct by content.')
-    ck.notes += ['tangent-plane coordinates of the expected pairs are computed through the public transforms '
+    ck.notes += ['variants are compared within 1e-9 relative; statistics additionally get an absolute floor of 2^-36 x '
+                 'the largest coordinate of a participating source (rmse/mae of an exact fit are rounding noise)',
+                 'tangent-plane coordinates of the expected pairs are computed through the public transforms '
                  '(det_to_world, world_to_tanp) of the same correctors', 'rounding outside the theorems']
     fit_level(ck, lf)
     align_level(ck)
